@@ -13,12 +13,15 @@ EXPLANATION = ("The 75-octet budget and whole-character folding are proved for e
 ASSUMPTIONS = [
     "UTF-8 encodes a character in 1..4 octets and str.encode works per character (Unicode standard)",
     "loop-step: shape of foldline's loop (for char in line; ret_chars/byte_count initialised to []/0) is checked structurally on the AST; a different shape => inconclusive, not a pass",
-    "exact unfolding is decided at toy scale (limit 5..7, lines of <= 5 characters over an 10-character alphabet with the boundary code points of every UTF-8 width class) and for real-limit lines made of a repeated character pair; that unfolding is local to a fold point is an argument, not a verified fact",
+    "exact unfolding is decided at toy scale (limit 3..7, lines of <= 5 characters over an 10-character alphabet with the boundary code points of every UTF-8 width class) and for real-limit lines made of a repeated character pair; that unfolding is local to a fold point is an argument, not a verified fact",
     "lines contain no LF (asserted by foldline itself)",
 ]
 CONDITIONS = [
     S("loop-step", "c06", "c06_loop_step", timeout=120, what="inductive invariant of the per-character loop: open line <= 75 octets, folds only between characters, one separator per fold", bound="any line length; widths 1..4; arbitrary state satisfying the invariant"),
     S("ascii-path", "c06", "c06_ascii_path", timeout=120, what="ASCII fast path: pieces tile the line, non-empty, physical lines <= 75 octets", bound="any length n >= 1, any piece index"),
-] + shards("fold-unfold", "c06.py", "h_fold_unfold", {"limit": [5, 6, 7], "a": list(range(10))}, timeout=300, thorough_timeout=1500,
+] + shards("handover", "c06.py", "h_handover", {"chunk": [0, 1, 2, 3, 4, 5]}, timeout=300,
+           what="real limit: ASCII run of every length 0..160, then a 2-/3-/4-octet character and a tail: <= 75 octets, one added space, exact unfolding",
+           bound="prefix length 0..160 x 6 boundary code points x 3 tails"
+) + shards("fold-unfold", "c06.py", "h_fold_unfold", {"limit": [3, 4, 5, 6, 7], "a": list(range(10))}, timeout=300, thorough_timeout=1500,
            what="real foldline + real unfold regex: octet limit, valid UTF-8 per line, one added space, exact restore", bound="<= 4 (thorough 5) characters, first pinned per shard, over {a, SP, TAB, CR, U+0080, U+07FF, U+0800, U+FFFF, U+10000, U+1F600}"
 ) + [X("contentline", "c06.py", "h_contentline", timeout=300, params={"n": n}, what="Contentline.to_ical/from_ical and Contentlines at the real limit", bound="value = %d repetitions of a symbolic character pair" % n) for n in (0, 1, 17, 18, 19, 24, 25, 31, 32, 36, 37, 38, 63, 80)]
